@@ -658,6 +658,20 @@ func (c *handlerCtx) handleReply() {
 	}
 }
 
+// finishBoundReply completes the call that bindReply has bound to this context
+// when the read loop is not going to dispatch handle() for it.
+// bindReply holds the call's lock until handleReply: skipping handleReply would
+// leave the call pending forever and block everyone who locks it afterwards.
+func (c *handlerCtx) finishBoundReply(err error) {
+	if c.callCmd == nil {
+		return
+	}
+	if err != nil {
+		c.stat = statBadMessage.Copy(err)
+	}
+	c.handleReply()
+}
+
 // StatusOK returns the handle status is OK or not.
 func (c *handlerCtx) StatusOK() bool {
 	return c.stat.OK()
